@@ -99,7 +99,10 @@ Definition property (sc : scen) (o : obs) : verdict :=
     | None => true
     end in
   (* 4: the stream ends, and on a frame boundary *)
-  let p4 := (negb (clean && (o_eof o =? 1)) || (o_garbage o =? 0)) && (o_nofin o =? 0) in
+  let p4 := (negb (clean && (o_eof o =? 1)) || (o_garbage o =? 0)) && (o_nofin o =? 0)
+            (* ... with EOF, not with a reset, when the endpoint never reads and the peer was silent
+               while we closed (data arriving after the shutdown legitimately provokes a kernel RST) *)
+            && (has_rst sc || sc_hr sc || negb (sc_waitinput sc =? 1) || (o_peerreset o =? 0)) in
   (* 5: inbound frames delivered once, in wire order, bound to this connection, intact *)
   let p5 := is_prefix (o_delivered o) (input_frames sc) && (o_badendpoint o =? 0) in
   (* 6: counters equal what crossed the wire *)
@@ -123,8 +126,31 @@ Definition property (sc : scen) (o : obs) : verdict :=
  (vjoin (check_that p5 (VPropFail 5))
         (check_that p6 (VPropFail 6)))))).
 
+(* server case (one TcpServer, several connections): input = (4 codec n outs ins seed)
+   observed = ((psent bsent precv brecv wire_n wire_bytes in_n in_bytes eof delivered) ...) (badendpoint misdelivered panics inconclusive) *)
+Definition server_conn_ok (conclusive : bool) (c : sx) : bool :=
+  match sx_ints c with
+  | Some [ps; bs; pr; br; wn; wb; inn; inb; eof; deliv] =>
+      (* sent counters = what this connection's client received; received counters = what it sent *)
+      negb (conclusive && (eof =? 1)) || ((ps =? wn) && (bs =? wb) && (pr =? inn) && (br =? inb) && (deliv =? inn))
+  | _ => false
+  end.
+
+Definition server_check (input observed : sx) : verdict :=
+  match observed with
+  | SList [SList conns; flags] =>
+      match sx_ints flags with
+      | Some [badep; misdeliv; panics; inconcl] =>
+          vjoin (check_that ((badep =? 0) && (misdeliv =? 0)) (VPropFail 5))
+                (check_that (forallb (server_conn_ok (inconcl =? 0)) conns) (VPropFail 6))
+      | _ => VBad
+      end
+  | _ => VBad
+  end.
+
 Definition check (c : sx) : verdict :=
   match c with
+  | SList [SList (SInt 4 :: _) as input; observed] => server_check input observed
   | SList [input; observed] =>
       match decode_scen input, decode_obs observed with
       | Some sc, Some o => vjoin (property sc o) (correspondence sc o)
